@@ -390,6 +390,12 @@ class Check:
                         known.append((o, key, rr))
                     else:
                         violations.append((o, rr))
+                elif o.meta.get("structural"):
+                    # a STRUCTURAL expectation about the traced program failed (the code is organised differently from what
+                    # this part of the encoder looks for) while the semantic replay on the real code agrees with the
+                    # documentation: this part is not decided for this tree -- inconclusive, neither a pass nor an alarm
+                    o.result = dict(o.result, status="unknown", reason=f"structure differs from the encoder's expectation; semantic replay agrees ({str(rr.get('detail'))[:200]})")
+                    inconclusive.append(o)
                 else:
                     harness_err.append(f"{o.name}: sat but model does not replay ({rr.get('detail')})")
                 continue
